@@ -8,6 +8,8 @@ require (
 	github.com/rs/zerolog v1.33.0
 	github.com/sassoftware/relic/v8 v8.0.0
 	github.com/xi2/xz v0.0.0-20171230120015-48954b6210f8
+	golang.org/x/time v0.9.0
+	howett.net/plist v1.0.1
 	software.sslmate.com/src/go-pkcs12 v0.5.0
 )
 
@@ -100,7 +102,6 @@ require (
 	golang.org/x/sys v0.29.0 // indirect
 	golang.org/x/term v0.28.0 // indirect
 	golang.org/x/text v0.21.0 // indirect
-	golang.org/x/time v0.9.0 // indirect
 	google.golang.org/api v0.203.0 // indirect
 	google.golang.org/genproto v0.0.0-20241021214115-324edc3d5d38 // indirect
 	google.golang.org/genproto/googleapis/api v0.0.0-20241015192408-796eee8c2d53 // indirect
@@ -108,7 +109,6 @@ require (
 	google.golang.org/grpc v1.67.1 // indirect
 	google.golang.org/protobuf v1.35.1 // indirect
 	gopkg.in/yaml.v3 v3.0.1 // indirect
-	howett.net/plist v1.0.1 // indirect
 )
 
 replace github.com/sassoftware/relic/v8 => /repo
